@@ -6,7 +6,7 @@ import time
 
 from .facts import VERIF, AnalysisError
 
-EVIDENCE_DIR = os.path.join(VERIF, "evidence")
+EVIDENCE_DIR = os.environ.get("VERIF_EVIDENCE", os.path.join(VERIF, "evidence"))   # the override is for selftest/pmatrix.py only
 KNOWN = os.path.join(VERIF, "known_findings.json")
 
 
